@@ -6,6 +6,7 @@ use iroh_docs::{
     verif, ContentStatus, Event, NamespaceId, SignedEntry,
 };
 use proptest::{collection::vec, prelude::*};
+use iroh_docs::api::RpcResult;
 use serde::{Deserialize, Serialize};
 
 use crate::{
@@ -50,6 +51,10 @@ pub enum Req {
     OpenMany { d: u8, n: u16 },
     /// `n` closes in a row, each reply compared with the model
     CloseMany { d: u8, n: u16 },
+    /// a query whose reply stream (buffer of one item) is left unread while the client goes on with other requests
+    GetManyLazy(u8),
+    /// the client reads the oldest unread reply stream to its end
+    ReadLazy,
 }
 
 #[derive(Serialize, Deserialize, Clone, Debug)]
@@ -134,7 +139,9 @@ impl Prop for C14 {
          subscribers, entries} per document predicts the success class of every reply, close's boolean, get_state, and the contents; \
          a failed request must leave everything unchanged; the store handed back by shutdown must contain every acknowledged write; \
          non-trivial = some document is opened >= 2 times and closed >= 2 times with requests in between, a request hits a closed \
-         document, and sync is toggled. Concurrent variant: after a sequential prefix two clients issue <= 5 requests each (or three clients \
+         document, and sync is toggled. Queries whose reply stream (buffer of one item) the client leaves unread while it goes on must, when \
+         read later, yield the contents the document had at some moment between the query and the read, and a shutdown with such \
+         streams still unread must hand the store back. Concurrent variant: after a sequential prefix two clients issue <= 5 requests each (or three clients \
          <= 4 each) from their own OS threads; the recorded invoke/response history must be linearizable with respect to the same \
          model (Wing-Gong search over <= 12 operations), whatever interleaving the OS produced; non-trivial there = the two clients' operations overlapped in time \
          and at least one write was acknowledged. Pipelined variant: one client enqueues 2..=12 requests without awaiting any reply; \
@@ -175,6 +182,8 @@ impl Prop for C14 {
             600 => req,
             1 => (d(), many.clone()).prop_map(|(d, n)| Req::OpenMany { d, n }),
             1 => (d(), many).prop_map(|(d, n)| Req::CloseMany { d, n }),
+            14 => d().prop_map(Req::GetManyLazy),
+            14 => Just(Req::ReadLazy),
         ];
         let seq = (prop::bool::weighted(0.2), prop_oneof![3 => Just(7u8), 2 => 0u8..8], vec(req, 1..=max), prop::bool::weighted(0.4))
             .prop_map(|(file, preimport, reqs, sparse_observe)| Case::Sequential(Seq { file, preimport, reqs, sparse_observe }));
@@ -273,6 +282,10 @@ fn run(ctx: &mut Ctx, c: &Seq, o: &mut Outcome) -> R<()> {
         let mut hit_closed = false;
         let mut toggled = false;
         let mut acked: Vec<Vec<SignedEntry>> = vec![vec![]; 3];
+        // unread reply streams: (document, was it open when the query was made, receiver, contents the document had at any
+        // moment since the query was made)
+        type LazyRx = irpc::channel::mpsc::Receiver<RpcResult<SignedEntry>>;
+        let mut lazy: Vec<(usize, bool, LazyRx, Vec<Vec<SignedEntry>>)> = vec![];
         for (i, r) in c.reqs.iter().enumerate() {
             let now = T0 + 100 + i as u64;
             verif::set_clock(Some(now));
@@ -558,6 +571,62 @@ fn run(ctx: &mut Ctx, c: &Seq, o: &mut Outcome) -> R<()> {
                 Req::Flush => {
                     es(h.flush_store().await)?;
                 }
+                Req::GetManyLazy(d) => {
+                    let du = *d as usize;
+                    if lazy.len() < 4 {
+                        let (tx, rx) = irpc::channel::mpsc::channel::<RpcResult<SignedEntry>>(1);
+                        es(h.get_many(ids[du], Query::all().include_empty().build(), tx).await)?;
+                        let open = docs[du].handles > 0;
+                        if !open {
+                            hit_closed = true;
+                        }
+                        lazy.push((du, open, rx, vec![docs[du].entries.dump()]));
+                        o.class("query-reply-left-unread");
+                    }
+                }
+                Req::ReadLazy => {
+                    if !lazy.is_empty() {
+                        let (du, open, mut rx, candidates) = lazy.remove(0);
+                        let mut got = vec![];
+                        let mut err = false;
+                        loop {
+                            match tokio::time::timeout(std::time::Duration::from_secs(30), rx.recv()).await {
+                                Err(_) => return Err("harness-timeout: a reply stream did not end within 30 s although it was being read".into()),
+                                Ok(Ok(Some(Ok(e)))) => got.push(e),
+                                Ok(Ok(Some(Err(_)))) => {
+                                    err = true;
+                                    break;
+                                }
+                                Ok(Ok(None)) => break,
+                                Ok(Err(_)) => {
+                                    err = true;
+                                    break;
+                                }
+                            }
+                        }
+                        if open && (err || !candidates.contains(&got)) {
+                            o.fail(
+                                "C14/late-read-of-a-query-reply",
+                                format!(
+                                    "{what}: a query on document {du} (open at that time) whose reply was read {} requests later yielded {}{}; the document held {} when the query was made and {} now",
+                                    candidates.len() - 1,
+                                    describe_all(&got),
+                                    if err { " and then an error" } else { "" },
+                                    describe_all(&candidates[0]),
+                                    describe_all(candidates.last().unwrap())
+                                ),
+                            );
+                            break;
+                        }
+                        if !open && (!err || !got.is_empty()) {
+                            o.fail("C14/requires-open", format!("{what}: a query on a document that was not open yielded {} entries and {}", got.len(), if err { "an error" } else { "no error" }));
+                            break;
+                        }
+                        if open && candidates.len() > 1 {
+                            o.class("query-reply-read-after-later-requests");
+                        }
+                    }
+                }
                 Req::OpenMany { d, n } => {
                     let du = *d as usize;
                     o.class("crowd-of-handles(254..300-opens-in-a-row)");
@@ -622,6 +691,12 @@ fn run(ctx: &mut Ctx, c: &Seq, o: &mut Outcome) -> R<()> {
                 return Err("harness bug: model changed on a failed request".into());
             }
             o.count("requests_checked_against_model", 1);
+            for (du, _, _, candidates) in lazy.iter_mut() {
+                let now = docs[*du].entries.dump();
+                if candidates.last() != Some(&now) {
+                    candidates.push(now);
+                }
+            }
             if c.sparse_observe && i + 1 != c.reqs.len() {
                 continue;
             }
@@ -644,8 +719,24 @@ fn run(ctx: &mut Ctx, c: &Seq, o: &mut Outcome) -> R<()> {
         if (0..3).any(|d| opens[d] >= 2 && closes[d] >= 2) {
             o.class("opened>=2-and-closed>=2");
         }
-        // shutdown hands back a store with every acknowledged write
-        let mut store = es(h.shutdown().await)?;
+        // shutdown hands back a store with every acknowledged write - also while a client sits on unread reply streams
+        if !lazy.is_empty() && !o.failed() {
+            o.class("shutdown-with-unread-query-replies");
+        }
+        let mut store = match tokio::time::timeout(std::time::Duration::from_secs(30), h.shutdown()).await {
+            Ok(r) => es(r)?,
+            Err(_) => {
+                if lazy.is_empty() {
+                    return Err("harness-timeout: shutdown was not answered within 30 s".into());
+                }
+                o.fail(
+                    "C14/shutdown-waits-for-unread-query-replies",
+                    format!("shutdown was not answered within 30 s while {} query replies (buffer of one item each) were still unread by their client: the store is never handed back", lazy.len()),
+                );
+                return Ok(());
+            }
+        };
+        drop(lazy);
         if !o.failed() {
             for d in 0..3usize {
                 let got = dump(&mut store, ids[d])?;
